@@ -142,6 +142,9 @@ func VerifC10(maxEvents, withWorkload int) {
 		vAssert(len(g) == 1 && g[0] == "g", "C10.general-metadata-missing")
 		vAssert(len(n) == 1 && n[0] == "1", "C10.per-node-metadata-missing")
 	}
+	// C18: the stream contexts of the connection attempts made along the way are released:
+	// at most the current stream's context is still registered with the node's context
+	vAssert(vLiveChildren(w.nodes[0].channel.parentCtx) <= 1, "C18.stream-context-kept-after-its-stream-was-replaced")
 	vReach("probe-ok")
 }
 
